@@ -324,9 +324,17 @@ def check_history(kinds, hist, zyg, variant="plain", twolive_stop=True, mixed=Fa
     nops = nobs = 0
     two = nobj > 1
     pre = "two-objects" if two else "one-object"
+    # Once an operation has been applied to one object while ANOTHER object was live, the two share native state (the
+    # recorded known finding): whatever deviates later - possibly several operations later, e.g. when outputs are
+    # memoised - is attributed to that interference.  Two-object histories whose lifetimes never overlap stay strict.
+    tainted = False
     for q, (op, o) in enumerate(hist):
+        if two and any(isinstance(abst[p_], tuple) for p_ in range(nobj) if p_ != o):
+            tainted = True
         prefix = hist_str(hist[:q + 1])
         announce("op " + prefix)
+        if two and tainted:
+            pre = "two-objects-interference"
         try:
             if op == "G":
                 import gc
@@ -373,7 +381,7 @@ def check_history(kinds, hist, zyg, variant="plain", twolive_stop=True, mixed=Fa
             if not isinstance(abst[p], tuple):
                 continue
             announce("observers-of-object-%d-after " % p + prefix)
-            tag = "two-objects-interference" if (two and (nlive > 1 or p != o)) else pre
+            tag = "two-objects-interference" if (two and (tainted or nlive > 1 or p != o)) else pre
             try:
                 got = observers(engines[p])
             except Exception as e:
@@ -383,7 +391,7 @@ def check_history(kinds, hist, zyg, variant="plain", twolive_stop=True, mixed=Fa
             nobs += 1
             # a deviation seen while another object is live, or on an object other than the one just operated,
             # is interference between engine objects
-            tag = "two-objects-interference" if (two and (nlive > 1 or p != o)) else pre
+            tag = "two-objects-interference" if (two and (tainted or nlive > 1 or p != o)) else pre
             if not got["twice_equal"]:
                 viol.append(("C10:%s:get_output-not-repeatable" % tag, "history %s: two consecutive get_output() of object %d differ" % (prefix, p), prefix))
             # (c) absolute invariants
